@@ -4,6 +4,8 @@ sql::state::AggregateState is the one accumulator behind HashAggregate / GROUP B
 
  G1 EMPTY-IS-NULL       finalize: the arms of SUM, AVG, MIN and MAX can produce Value::Null (that is the only SQL result for an empty or
                         all-NULL input); the COUNT arm never does.
+ G1b NULL-BY-WITNESS    finalize: each NULL result of SUM/AVG/MIN/MAX is selected by a test of something other than a value accumulator
+                        (a field update() adds input data to): the sum itself cannot tell "no input" from "inputs that cancel".
  G2 COUNT-INSPECTS-ARG  update: COUNT(expr) ignores NULLs, so the COUNT arm must look at the row (read the argument column) unless the
                         function descriptor distinguishes COUNT(*) — an arm that increments unconditionally counts NULLs.
  G3 NULL-IGNORED        update: in the SUM/AVG/MIN/MAX arms every store to the accumulator (including AVG's row count) sits under the
@@ -56,6 +58,54 @@ def run(ctx):
             what = "%s can finalize to NULL" % v.upper() if ok else \
                    "%s can never finalize to NULL: for an empty or all-NULL input it returns a number where SQL specifies NULL" % v.upper()
         ctx.ob("G1.EMPTY-IS-NULL", v, ok, what, fin.loc())
+    # G1b NULL-BY-WITNESS: whether any non-NULL input was seen cannot be recovered from the accumulated value (5 and -5 sum to the
+    # same 0 as no input at all).  Every NULL result of SUM/AVG/MIN/MAX is selected by at least one test of something other than a
+    # value accumulator (a field that update() adds input data to): a flag, a row count, an Option's discriminant.
+    from paths import const_value
+    import dmlrules
+    accs = set()
+    for b in upd.blocks:
+        for st in b["s"]:
+            if st[0] == "=" and st[2][0] == "bin" and st[2][1].startswith("Add") and const_value(upd, st[2][2]) is None and const_value(upd, st[2][3]) is None:
+                for o in (st[2][2], st[2][3]):
+                    q = operand_place(o)
+                    if q is not None and q[1] and isinstance(q[1][-1], list) and q[1][-1][0] == "f" and q[1][-1][2] and len(q[1]) == 2 and q[1][0] == "*":
+                        accs.add(q[1][-1][2])
+    from paths import arg_origin, origin_fields
+    for c in upd.calls:
+        if c.name.endswith("::add_assign") and len(c.args) == 2 and const_value(upd, c.args[1]) is None:
+            k_, p_, _ = arg_origin(upd, c, 0)
+            for x in origin_fields(upd, k_, p_):
+                accs.add(x)
+    ctx.stat("G1b.value_accumulators", sorted(accs))
+    if not accs:
+        raise CheckError("no value accumulator found in update()")
+    for v in variants:
+        if v == "Count":
+            continue
+        tgt = target(fa, v)
+        reg = arm_region(fin, tgt)
+        for b in sorted(reg):
+            if not any(st[0] == "=" and st[2][0] == "agg" and st[2][1] == "adt" and st[2][2] == VAL and st[2][3] == "Null" for st in fin.blocks[b]["s"]):
+                continue
+            tests = []
+            for sb in sorted(reg):
+                t = fin.blocks[sb]["t"]
+                if t[0] != "switch" or sb == b or not fin.dominates(sb, b):
+                    continue
+                q = operand_place(t[1])
+                if q is None:
+                    continue
+                flds = dmlrules._data_fields(fin, q[0]) | set(place_fields(q))
+                for d in fin.defs().get(q[0], []):
+                    if d[0] == "stmt" and d[3][0] == "disc":
+                        flds |= {"discriminant of " + x for x in place_fields(d[3][1])} or {"discriminant"}
+                tests.append(sorted(flds))
+            witness = [t_ for t_ in tests if set(t_) - accs]
+            ok = bool(witness)
+            ctx.ob("G1b.NULL-BY-WITNESS", v, ok, "NULL is selected by a test of %s" % (witness[0] if ok else None) if ok else
+                   "%s finalizes to NULL on tests of the accumulated value alone (%s): inputs that sum/compare to that value (5 and -5; a single 0) "
+                   "are reported as NULL, and HAVING drops their groups" % (v.upper(), tests), "%s:%s" % (fin.file, fin.blocks[b].get("l")))
     # G2
     reg = arm_region(upd, target(ua, "Count"))
     reads = [c for c in upd.calls if c.bb in reg and (c.name.endswith("ExecutorRow::<'a>::get") or c.name.endswith("ExecutorRow::get") or "is_null" in c.name)]
